@@ -257,6 +257,7 @@ def rand_game(code_lines, label, fill):
 allbytes = bytes(b for b in range(1, 256) if b not in (10, 13, 34, 92))
 codes = [[], [b'x = 1\n'], [b'x = 1'], [b'-- ' + allbytes + b'\n', b's = "' + allbytes.replace(b'\x00', b'') + b'"\n'],
          [b'\x80\x81 = "\xff\xfe"\n', b'print(\x80\x81)'], [b'a = 1\n', b'\n', b'b = 2\n', b'\n'],
+         [b'-- ' + bytes(b for b in range(1, 32) if b not in (10, 13)) + b'\x7f\n', b's = "' + bytes(range(14, 32)) + b'\x7f"\n', b'x = 1 -- \x10\n'],      # control glyphs on lines without any high byte
          [b'-- title\r\n', b'x = 1\r\n'], [b's = [[one\r\ntwo]]\n', b'y = 2\r', b'z = 3\n'], [b'-- \r\r\n', b'\r\n', b'w = 4\n\r']]     # CR is a P8SCII byte like any other
 fills = [lambda i: 0, lambda i: 255, lambda i: i & 255, lambda i: rnd.randint(0, 255), lambda i: (i * 7 + 3) & 255, lambda i: 0x80 | (i & 0x7f)]
 bad, n = [], 0
